@@ -109,9 +109,9 @@ func (c *Clock) After(d time.Duration) <-chan time.Time { panic("isisx.Clock: Af
 func (c *Clock) AfterFunc(d time.Duration, f func()) *bbclock.Timer {
 	panic("isisx.Clock: AfterFunc not supported")
 }
-func (c *Clock) Sleep(d time.Duration)                  { panic("isisx.Clock: Sleep not supported") }
-func (c *Clock) Tick(d time.Duration) <-chan time.Time  { return c.Ticker(d).C }
-func (c *Clock) Timer(d time.Duration) *bbclock.Timer   { panic("isisx.Clock: Timer not supported") }
+func (c *Clock) Sleep(d time.Duration)                 { panic("isisx.Clock: Sleep not supported") }
+func (c *Clock) Tick(d time.Duration) <-chan time.Time { return c.Ticker(d).C }
+func (c *Clock) Timer(d time.Duration) *bbclock.Timer  { panic("isisx.Clock: Timer not supported") }
 func (c *Clock) WithDeadline(parent context.Context, d time.Time) (context.Context, context.CancelFunc) {
 	panic("isisx.Clock: WithDeadline not supported")
 }
@@ -269,12 +269,12 @@ func (d *Devs) Update(name string, dev *Dev) {
 
 type nopLogger struct{}
 
-func (nopLogger) Errorf(string, ...interface{})              {}
-func (nopLogger) Infof(string, ...interface{})               {}
-func (nopLogger) Debugf(string, ...interface{})              {}
-func (nopLogger) Error(string)                               {}
-func (nopLogger) Info(string)                                {}
-func (nopLogger) Debug(string)                               {}
+func (nopLogger) Errorf(string, ...interface{})               {}
+func (nopLogger) Infof(string, ...interface{})                {}
+func (nopLogger) Debugf(string, ...interface{})               {}
+func (nopLogger) Error(string)                                {}
+func (nopLogger) Info(string)                                 {}
+func (nopLogger) Debug(string)                                {}
 func (n nopLogger) WithFields(log.Fields) log.LoggerInterface { return n }
 func (n nopLogger) WithError(error) log.LoggerInterface       { return n }
 
